@@ -86,15 +86,19 @@ def strings(dialect):
         lambda t: "".join(w + s for w, s in zip(t[0], t[1])).rstrip(" \t"))
     longs = st.sampled_from([s for s in LONG if ok(s)])
     # strings with a character the dialect cannot write at all: the encoder has to refuse
-    outside = st.sampled_from([s for s in ["caf\u00e9", "5 \u00b5m", "30\u00b0", "\x01", "a\x07b",
-                                           "\u03b1", "\u2028", "\x7f", "x\x85y", "\U0001F600"]
+    # (mostly characters that another dialect can write, so that the same process may
+    # well have written them a moment ago)
+    outside = st.sampled_from([s for s in ["caf\u00e9", "5 \u00b5m", "30\u00b0", "\u00e9",
+                                           "\u00b5m", "ma\u00f1ana", "caf\u00e9", "\u00b5m",
+                                           "\x01", "a\x07b", "\u03b1", "\u2028", "\x7f",
+                                           "x\x85y", "\U0001F600"]
                                if not ok(s)])
     return st.one_of(
         st.sampled_from(pool),
         st.sampled_from(pool),
         st.sampled_from(lexemes),
         st.integers(0, 19).flatmap(lambda k: longs if k == 0 else st.sampled_from(pool)),
-        st.integers(0, 7).flatmap(lambda k: outside if k == 0 else st.sampled_from(pool)),
+        st.integers(0, 39).flatmap(lambda k: outside if k == 0 else st.sampled_from(pool)),
         dashy,
         st.text(alphabet=cs, max_size=12),
         st.text(alphabet="abAB01_-+.:#/ '\"\n\t", max_size=8),
